@@ -133,31 +133,37 @@ Fixpoint run (im : impl) (cfg : nat -> smode * nat) (t : nat) (s : vstate) : lis
             let '(l, s2) := run im cfg t' s1 in (o :: l, s2)
   end.
 
-(* ---- comparison with observations ---- *)
-Fixpoint eqb_keys (a b : list key) : bool :=
+(* ---- comparison with observations ----
+   An observed key is a bit pattern; the harness names it by the list of ALL split-terms (within the
+   horizon of the run) that evaluate to this bit pattern under the real jax.random.split (with the
+   threefry implementation split(k, n)[i] does not depend on n, so several terms share a pattern).
+   The model's term must be among them, i.e. the real key is the model's term evaluated with the
+   real split. *)
+Definition key_in (k : key) (c : list key) : bool := existsb (key_eqb k) c.
+Fixpoint keys_in (a : list key) (b : list (list key)) : bool :=
   match a, b with
   | [], [] => true
-  | x :: a', y :: b' => key_eqb x y && eqb_keys a' b'
+  | x :: a', c :: b' => key_in x c && keys_in a' b'
   | _, _ => false
   end.
-Definition eqb_okeys (a b : option (list key)) : bool :=
-  match a, b with
+Definition cobs := (list (list key) * list (list key) * list key * option (list (list key)))%type.
+Definition match_vobs (a : vobs) (b : cobs) : bool :=
+  let '(l, n, k, s) := b in
+  keys_in (o_lin a) l && keys_in (o_nl a) n && key_in (o_key a) k &&
+  match o_skeys a, s with
   | None, None => true
-  | Some x, Some y => eqb_keys x y
+  | Some x, Some y => keys_in x y
   | _, _ => false
   end.
-Definition eqb_vobs (a b : vobs) : bool :=
-  eqb_keys (o_lin a) (o_lin b) && eqb_keys (o_nl a) (o_nl b) && key_eqb (o_key a) (o_key b) &&
-  eqb_okeys (o_skeys a) (o_skeys b).
-Fixpoint eqb_vobs_list (a b : list vobs) : bool :=
+Fixpoint match_vobs_list (a : list vobs) (b : list cobs) : bool :=
   match a, b with
   | [], [] => true
-  | x :: a', y :: b' => eqb_vobs x y && eqb_vobs_list a' b'
+  | x :: a', y :: b' => match_vobs x y && match_vobs_list a' b'
   | _, _ => false
   end.
 
 (* per-iteration configuration given as a list (mode, n_samples) *)
 Definition cfg_of (l : list (smode * nat)) (i : nat) : smode * nat := nth i l (LinResample, 0).
 
-Definition vi_ok (im : impl) (l : list (smode * nat)) (expected : list vobs) : bool :=
-  eqb_vobs_list (fst (run im (cfg_of l) (length l) (mkV 0 K0 None))) expected.
+Definition vi_ok (im : impl) (l : list (smode * nat)) (expected : list cobs) : bool :=
+  match_vobs_list (fst (run im (cfg_of l) (length l) (mkV 0 K0 None))) expected.
